@@ -122,7 +122,11 @@ class Builder:
             self.log.add('R2', where, m.group(0), 'for .. in it%d: .. invariant ..' % n[0])
             ind = m.group(1)
             self._pending_inv.append((n[0], inv))
-            return '%sfor %s in it%d: %s\n%s    invariant\n%s\n%s{' % (ind, m.group(2), n[0], m.group(3).strip(), ind, '\n'.join(ind + '        ' + (i if isinstance(i, str) else '/*#%s#*/ ' % i[0] + i[2]) + ',' for i in inv), ind)
+            isb = lambda i: (i if isinstance(i, str) else i[2]).startswith('!break ')
+            eb = [(i[len('!break '):] if isinstance(i, str) else '/*#%s#*/ ' % i[0] + i[2][len('!break '):]) for i in inv if isb(i)]
+            inv = [i for i in inv if not isb(i)]
+            ebt = ('%s    invariant_except_break\n%s\n' % (ind, '\n'.join(ind + '        ' + i + ',' for i in eb))) if eb else ''
+            return '%sfor %s in it%d: %s\n%s%s    invariant\n%s\n%s{' % (ind, m.group(2), n[0], m.group(3).strip(), ebt, ind, '\n'.join(ind + '        ' + (i if isinstance(i, str) else '/*#%s#*/ ' % i[0] + i[2]) + ',' for i in inv), ind)
         return re.sub(r'^([ \t]*)for (.+?) in (.+?) \{$', rep, body, flags=re.M)
     def _insert_blocks(self, body, blocks, where):
         # R2b: (anchor text, 'before'|'after'|'after_block'|'fn_end', ghost text)
